@@ -28,6 +28,8 @@ type Case struct {
 	Rules *string  `json:"rules,omitempty"` // content of .terraformignore, nil = no file
 	// how the (absolute) destination is named: "" directly | "parentlink" below a symlinked parent | "dstlink" is itself a symlink
 	DstVia string `json:"dst_via,omitempty"`
+	// the source directory is named below a symlinked parent directory
+	SrcViaLink bool `json:"src_via_link,omitempty"`
 }
 
 var subRound = ev.Register("roundtrip", checkRoundTrip)
@@ -71,7 +73,12 @@ func checkRoundTrip(c Case) error {
 	if err != nil {
 		return fmt.Errorf("harness: snapshot: %v", err)
 	}
-	data, _, perr, panicked := pk.PackBytes(c.Opts, vars, src)
+	srcArg := src
+	if c.SrcViaLink {
+		os.Symlink(".", filepath.Join(r, "viasrc"))
+		srcArg = filepath.Join(r, "viasrc", "src")
+	}
+	data, _, perr, panicked := pk.PackBytes(c.Opts, vars, srcArg)
 	if panicked != nil {
 		return fmt.Errorf("Pack panicked: %v", panicked)
 	}
@@ -208,6 +215,7 @@ func genCase(unpriv bool) func(t *rapid.T) Case {
 		c.Opts.Deref = rapid.Bool().Draw(t, "deref")
 		c.Opts.Ignore = rapid.Bool().Draw(t, "ignore")
 		c.DstVia = rapid.SampledFrom([]string{"", "", "", "", "parentlink", "dstlink"}).Draw(t, "dstvia")
+		c.SrcViaLink = rapid.IntRange(0, 4).Draw(t, "srcvialink") == 0
 		return c
 	}
 }
